@@ -102,11 +102,11 @@ def h_servers(ctx, n, type1, type2, fixed1=None, sym_fixed=False):
             if stype == "serverless":
                 ctx.eq(nb[t], raw[t], f"{s}: serverless instances = raw need")
             elif stype == "autoscaling":
-                ctx.eq(nb[t], ceil_(oracle_raw[t]), f"{s}: autoscaling instances = ceil(raw need)")
+                ctx.eq_ceil(nb[t], oracle_raw[t], f"{s}: autoscaling instances = ceil(raw need)")
             else:
                 fx = spec["servers"][s].get("fixed_nb_of_instances")
                 if fx is None:
-                    ctx.eq(nb[t], ceil_(peak), f"{s}: on-premise instances = ceil(peak raw need), constant")
+                    ctx.eq_ceil(nb[t], peak, f"{s}: on-premise instances = ceil(peak raw need), constant")
                 else:
                     fxv = get(f"{s}.fixed_nb_of_instances", fx)
                     ctx.eq(nb[t], fxv, f"{s}: fixed instance count honoured exactly")
@@ -170,10 +170,15 @@ def h_storage(ctx, skeleton, n, args=None, deleting=(), sym_sign=(), fixed=None,
     delta_code = _cells(st.storage_delta)
     cum_code = _cells(st.full_cumulative_storage_need)
     nb, active = _cells(st.nb_of_instances), _cells(st.nb_of_active_instances)
-    ctx.require(sorted(delta_code) == stamps, "storage_delta index = union of the jobs' stored-volume stamps (by time stamp)",
+    # expiries can fall on hours of the period where no job stores anything (disjoint windows): the delta index holds
+    # every stamp of the jobs and lies inside the modelled period; values are checked on every hour of the period
+    full = [stamps[0] + i * HOUR for i in range(int((stamps[-1] - stamps[0]) / HOUR) + 1)] if stamps else []
+    ctx.require(set(stamps) <= set(delta_code) <= set(full), "storage_delta index covers the jobs' stored-volume stamps, within the period (by time stamp)",
                 f"{[str(t) for t in sorted(delta_code)]} vs {[str(t) for t in stamps]}")
+    stamps = full
     need = {t: sum(ite(ds[j] >= 0, stored[j].get(t, 0), 0) for j in gt["jobs"]) * repl for t in stamps}
     freed = {t: sum(ite(ds[j] < 0, stored[j].get(t, 0), 0) for j in gt["jobs"]) * repl for t in stamps}
+    last_need = max([t for j in gt["jobs"] for t in stored[j]] or stamps[:1])
     # stamps at which writing jobs have values define the dump window (<= last writing stamp)
     wstamps = [t for t in stamps]
     dumps = {}
@@ -187,6 +192,9 @@ def h_storage(ctx, skeleton, n, args=None, deleting=(), sym_sign=(), fixed=None,
     running = base
     for t in stamps:
         d = need[t] + freed[t] + dumps[t]
+        if t not in delta_code:
+            ctx.eq(0, d, "storage_delta = replicated writes + deletions - expiries (per time stamp)")
+            continue
         ctx.eq(delta_code.get(t, 0), d, "storage_delta = replicated writes + deletions - expiries (per time stamp)")
         # the cumulative sum, sizing and activity clauses are stated over the model's own delta, so that each clause
         # fails on its own
@@ -197,7 +205,7 @@ def h_storage(ctx, skeleton, n, args=None, deleting=(), sym_sign=(), fixed=None,
         ctx.le(active.get(t, 0), nb.get(t, 0), "active instances <= provisioned instances")
         ctx.le(0, active.get(t, 0), "active instances >= 0")
         if fixed is None:
-            ctx.eq(nb.get(t, 0), ceil_(running / cap), "instances = ceil(cumulative need / capacity)")
+            ctx.eq_ceil(nb.get(t, 0), running / cap, "instances = ceil(cumulative need / capacity)")
         else:
             ctx.eq(nb.get(t, 0), env.get("st.fixed_nb_of_instances", fixed), "fixed storage instance count honoured exactly")
         dump_t = delta_code.get(t, 0) - need[t] - freed[t]
